@@ -208,6 +208,11 @@ class Party(sut.BaseAlgorithm):
                                 min0=float(s.min_rates[0]) if len(s.min_rates) else None,
                                 max0=float(s.max_rates[0]) if len(s.max_rates) else None,
                                 nrates=(len(s.min_rates), len(s.max_rates))) for s in ss]
+        # derived per-session accessors of the interface (what a scheduler would call instead of doing the arithmetic itself)
+        try:
+            rec["rem_ap"] = [(s.session_id, s.station_id, float(iface.remaining_amp_periods(s))) for s in ss]
+        except Exception as x_:          # recorded, judged by the property's oracle
+            rec["rem_ap_error"] = "%s: %s" % (type(x_).__name__, str(x_)[:120])
         rec["now"] = iface.current_time
         rec["datetime"] = iface.current_datetime
         rec["period"] = iface.period
